@@ -276,7 +276,7 @@ Lemma variants_one_column vx vy vz ax ay az t :
   (gen_qrotate_s0_x vx vy vz ax ay az t = gen_qrotate_x vx vy vz ax ay az t /\
    gen_qrotate_s0_y vx vy vz ax ay az t = gen_qrotate_y vx vy vz ax ay az t /\
    gen_qrotate_s0_z vx vy vz ax ay az t = gen_qrotate_z vx vy vz ax ay az t).
-Proof. repeat split; reflexivity. Qed.
+Proof. repeat split; variant_eq. Qed.
 
 (* two columns (v | w), axes (a | e), angles (t | u): column 1 of the result is the one-column
    formula on column 1 of the inputs (column 0 likewise), whatever is shared *)
@@ -305,7 +305,7 @@ Lemma variants_two_columns vx vy vz wx wy wz ax ay az ex ey ez t u :
   (gen_qrotate3_ss_c1_x vx vy vz wx wy wz ax ay az t = gen_qrotate_x wx wy wz ax ay az t /\
    gen_qrotate3_ss_c1_y vx vy vz wx wy wz ax ay az t = gen_qrotate_y wx wy wz ax ay az t /\
    gen_qrotate3_ss_c1_z vx vy vz wx wy wz ax ay az t = gen_qrotate_z wx wy wz ax ay az t).
-Proof. repeat split; reflexivity. Qed.
+Proof. repeat split; variant_eq. Qed.
 
 (* ---------- subpoint lies on the module's ellipsoid (A, B) for ANY latitude / longitude value ---------- *)
 Lemma ecc_den_pos lat :
